@@ -59,10 +59,10 @@ impl Scenario for C09S {
     }
     fn count(&self, tier: Tier, variant: &str) -> u64 {
         match (tier, variant) {
-            (Tier::Quick, "os") => 20000,
-            (Tier::Quick, _) => 4000,
-            (Tier::Thorough, "os") => 1_000_000,
-            (Tier::Thorough, _) => 200_000,
+            (Tier::Quick, "os") => 80_000,
+            (Tier::Quick, _) => 20_000,
+            (Tier::Thorough, "os") => 3_000_000,
+            (Tier::Thorough, _) => 600_000,
         }
     }
     fn rule(&self) -> &'static str {
